@@ -13,6 +13,11 @@ _abort_pending = False
 def register_signal_handlers():
     signal.signal(signal.SIGINT, _terminate_handler)
     signal.signal(signal.SIGTERM, _terminate_handler)
+    # Conductor needs the exit status of the processes it starts (`tar` when
+    # archiving and restoring). If SIGCHLD was inherited as "ignored", the
+    # kernel discards the exit status and a failed `tar` looks successful.
+    if signal.getsignal(signal.SIGCHLD) == signal.SIG_IGN:
+        signal.signal(signal.SIGCHLD, signal.SIG_DFL)
 
 
 def _terminate_handler(sig, frame):
